@@ -1,5 +1,5 @@
 //! C01 (and the x86-64 parts of C10 stub, C13): address placements of function, trampoline, fake.
-use crate::scen::{self, Kind, Pages, X64Case};
+use crate::scen::{self, Kind, Pages, Via, X64Case};
 use crate::Args;
 use std::cell::RefCell;
 use vkit::serde_json::{json, Value};
@@ -68,47 +68,69 @@ fn far_base_for(a: u64) -> u64 {
     }
 }
 
-pub fn cases(tier: &str) -> Vec<Value> {
+/// Enumerate the placement domain; only the cases of shard `shard.0` of `shard.1` are materialised
+/// (the thorough domain has millions of cases). Returns (my cases, total number of cases).
+pub fn cases(tier: &str, shard: (usize, usize)) -> (Vec<Value>, usize) {
     let mut out = Vec::new();
-    let offs = offsets(tier);
-    let dls = deltas(tier);
+    let mut idx = 0usize;
+    let mut emit = |a: u64, tramp: Option<u64>, fake: u64, kind: &str, via: &str| {
+        if idx % shard.1 == shard.0 {
+            out.push(json!({"a": a, "tramp": tramp, "fake": fake, "kind": kind, "via": via, "far_base": far_base_for(a)}));
+        }
+        idx += 1;
+    };
+    let thorough = tier == "thorough";
+    let offs_all = offsets(tier);
+    let offs_q = offsets("quick");
+    let dls_all = deltas(tier);
+    let dls_q = deltas("quick");
     let fd = fake_disps();
     let abs: [u64; 6] = [1, (1 << 47) - 1, 1 << 47, (1 << 63) - 1, 1 << 63, u64::MAX];
     for (bi, &b) in BASES.iter().enumerate() {
-        for (oi, &o) in offs.iter().enumerate() {
+        for (oi, &o) in offs_all.iter().enumerate() {
             let a = b + o;
+            let o_is_quick = offs_q.contains(&o);
             // the allocator's own search (default model answers), near fake and far fake, bool both
             for (fake, kind) in [(a.wrapping_add(0x10_0000), "exec"), (a ^ 0x1000_0000_0000, "exec"), (0, "bool0"), (0, "bool1")] {
-                out.push(json!({"a": a, "tramp": null, "fake": fake, "kind": kind, "far_base": far_base_for(a)}));
+                emit(a, None, fake, kind, "internal");
             }
-            for (di, &d) in dls.iter().enumerate() {
-                let t = (b as i128 + d as i128 * 4096) as i128;
+            for (di, &d) in dls_all.iter().enumerate() {
+                // thorough: every offset with the quick displacements, every displacement with the quick offsets
+                if thorough && !(o_is_quick || dls_q.contains(&d)) {
+                    continue;
+                }
+                let t = b as i128 + d as i128 * 4096;
                 if t < 0x1_0000 || t > 0x7FFF_FFFF_0000 {
                     continue;
                 }
                 let t = t as u64;
-                // near and far fake for every (B, o, delta)
                 for (fake, kind) in [(t + 0x80_0000, "exec"), (t ^ 0x1000_0000_0000, "exec"), (0, "bool0"), (0, "bool1")] {
-                    out.push(json!({"a": a, "tramp": t, "fake": fake, "kind": kind, "far_base": far_base_for(a)}));
+                    emit(a, Some(t), fake, kind, "internal");
+                    // the same placement requested through the public API (checked and unchecked flavours)
+                    if (o_is_quick && oi % 4 == 0 || o >= 0xFFC) && dls_q.contains(&d) {
+                        emit(a, Some(t), fake, kind, "api");
+                        emit(a, Some(t), fake, kind, "api-unchecked");
+                    }
                 }
                 // the full fake-displacement set for a boundary subset of (B, o, delta)
-                let boundary = (oi == 0 || o == 0xFFC || o == 0x7FF) && (di == 0 || di == dls.len() - 1 || d == -1) && (bi == 1 || bi == 3 || bi == 4 || bi == 6);
-                if boundary || (tier == "thorough" && (o == 0 || o >= 0xFF4)) {
+                let d_edge = di == 0 || di == dls_all.len() - 1 || d == -1;
+                let boundary = (o == 0 || o == 0xFFC || o == 0x7FF) && d_edge && (bi == 1 || bi == 3 || bi == 4 || bi == 6);
+                let boundary_t = thorough && (o == 0 || o == 0x7FF || o >= 0xFF4) && (d_edge || dls_q.contains(&d));
+                if boundary || boundary_t {
                     for &dd in &fd {
                         let f = (t as i128 + 5 + dd) as u128 as u64;
-                        if f == 0 {
-                            continue;
+                        if f != 0 {
+                            emit(a, Some(t), f, "exec", "internal");
                         }
-                        out.push(json!({"a": a, "tramp": t, "fake": f, "kind": "exec", "far_base": far_base_for(a)}));
                     }
                     for &f in &abs {
-                        out.push(json!({"a": a, "tramp": t, "fake": f, "kind": "exec", "far_base": far_base_for(a)}));
+                        emit(a, Some(t), f, "exec", "internal");
                     }
                 }
             }
         }
     }
-    out
+    (out, idx)
 }
 
 thread_local! {
@@ -124,6 +146,11 @@ pub fn exec(c: &Value) -> Value {
             "exec" => Kind::Exec,
             "bool0" => Kind::Bool(false),
             _ => Kind::Bool(true),
+        },
+        via: match c["via"].as_str().unwrap_or("internal") {
+            "api" => Via::ApiChecked,
+            "api-unchecked" => Via::ApiUnchecked,
+            _ => Via::Internal,
         },
     };
     let far = c["far_base"].as_u64().unwrap();
@@ -142,6 +169,7 @@ pub fn exec(c: &Value) -> Value {
     }
     if o.installed {
         tags.push("installed".into());
+        tags.push(format!("via:{:?}", case.via));
         tags.push(if o.entry_len_long { "entry:long" } else { "entry:rel32" }.into());
         if matches!(case.kind, Kind::Exec) {
             tags.push(if o.tramp_long { "trampoline:long" } else { "trampoline:rel32" }.into());
@@ -167,15 +195,18 @@ pub fn exec(c: &Value) -> Value {
 }
 
 pub fn main(a: &Args) -> i32 {
-    let cs = if let Some(f) = &a.replay {
+    let (cs, total) = if let Some(f) = &a.replay {
         let v: Value = vkit::serde_json::from_str(&std::fs::read_to_string(f).expect("replay file")).expect("json");
-        vec![v["case"].clone(), v["case"].clone()]
+        (vec![v["case"].clone(), v["case"].clone()], 2)
     } else {
-        cases(&a.tier)
+        cases(&a.tier, a.shard)
     };
     let domain = json!({
         "bases": BASES.iter().map(|b| format!("{b:#x}")).collect::<Vec<_>>(),
         "offsets": offsets(&a.tier).len(), "deltas_pages": deltas(&a.tier), "fake_displacements": fake_disps().len(),
     });
-    crate::run_cases(a, "c01", cs, 4000, &exec, domain)
+    let _ = total;
+    // the cases are already this shard's: run them all
+    let a2 = Args { check: a.check.clone(), tier: a.tier.clone(), shard: (0, 1), replay: a.replay.clone(), extra: a.extra.clone() };
+    crate::run_cases(&a2, "c01", cs, 4000, &exec, domain)
 }
